@@ -303,8 +303,15 @@ func (cc *concurrent) finish(x *Exec) {
 			if bytes.Equal(a0, want) {
 				continue
 			}
-			if h+1 <= top && bytes.Equal(a0, atRest(parts[1], h+1)) {
-				x.Flag("C20-snapshot-iavl-fast-iterator", fmt.Sprintf("query %s at the fixed height %d, served while height %d was being committed, returned the answer of height %d", parts[1], h, h+1, h+1))
+			later := int64(0)
+			for g := h + 1; g <= top && g <= h+3; g++ { // usually the very next version; under load a later one
+				if bytes.Equal(a0, atRest(parts[1], g)) {
+					later = g
+					break
+				}
+			}
+			if later != 0 {
+				x.Flag("C20-snapshot-iavl-fast-iterator", fmt.Sprintf("query %s at the fixed height %d, served while later heights were being committed, returned the answer of height %d", parts[1], h, later))
 			} else {
 				x.Flag("C20-snapshot", fmt.Sprintf("query %s at the fixed committed height %d returned, while blocks were executing, an answer that is not the state of that height (nor of the next): %.200q instead of %.200q", parts[1], h, a0, want))
 			}
